@@ -20,7 +20,7 @@ def run(ctx):
                   "fields": FIELDS, "shapes": shapes, "ints": "sentinel ints of 1, 4 and 7 digits and 0 in line/column fields; digit rendering trusted"}
     ctx.assumptions += ["json.loads of the standard library is a correct JSON parser (it is the validity oracle)", "S-time/uuid: uuid4()/datetime.now() replaced by constants", "A-json is not needed: whole documents are parsed"]
     ctx.outside += ["strings outside the pool or longer than the bound", "two hostile fields at once", "path components containing '/' or empty components (a scan cannot produce them)"]
-    T = 200 if ctx.quick() else 1200
+    T = 200 if ctx.quick() else 600
     jobs = []
     for si, sh in enumerate(shapes):
         for f in FIELDS:
